@@ -5,7 +5,7 @@
    in-memory index) dropped, then ContinuityStore::new;  `run_ops fixed … base more` = ANY further operations.
    `env_runb` = the environment's part (fresh UUIDs: a thread id chosen for creation is not in the log, a
    session whose counter is not in memory is new).  `fixed` = /repo with the two repairs (bd2ee56, 0b0d2b0). *)
-From RipV Require Import Base.Prelude Model.Crash Proofs.CrashProofs Proofs.CrashCacheProofs Proofs.CrashIndexProofs Proofs.CrashArtifactProofs Gen.CrashEffects Proofs.CrashGenProofs.
+From RipV Require Import Base.Prelude Model.Crash Proofs.CrashProofs Proofs.CrashCacheProofs Proofs.CrashIndexProofs Proofs.CrashArtifactProofs Proofs.CrashRoundsProofs Gen.CrashEffects Proofs.CrashGenProofs.
 
 (* whole store replays, every stream 0,1,2,.., whole lines only *)
 Theorem c05_recover_valid : forall (hist : list op) (k : nat) (base : N) (more : list op),
@@ -238,6 +238,52 @@ Example c05_artifact_before_frame_nonvacuous :
   /\ arts (crash fixed 57 art_hist) = [] /\ art_tmps (crash fixed 57 art_hist) = [7].
 Proof. exact art_example. Qed.
 Print Assumptions c05_artifact_before_frame_nonvacuous.
+
+(* ---- ANY NUMBER of crash / restart rounds.  `run_rounds fixed init 0 rs`: round (ops, k) runs the first k instructions
+   of its operations from the restarted state of the previous round, then the process dies again — so a crash may hit the
+   recovery work itself (the sidecar rebuild of the first append after a restart, the index back-fill).  After all rounds
+   and ANY further operations the store has every property of the single-crash theorems *)
+Theorem c05_rounds_recover_valid : forall (rs : list (list op * nat)) (more : list op),
+  env_rounds fixed init 0 rs = true ->
+  env_runb fixed (fst (run_rounds fixed init 0 rs)) (snd (run_rounds fixed init 0 rs)) more = true ->
+  let fin := run_ops fixed (fst (run_rounds fixed init 0 rs)) (snd (run_rounds fixed init 0 rs)) more in
+  exists fs, replay_validated fin = Some fs /\ Numbered fs /\ truth fin = enc fs
+             /\ (forall fid, In fid (acks fin) -> cfid fid fs = 1)
+             /\ (forall c evs, try_replay fin c = Some evs -> exists rest, stream (2 * c) fs = evs ++ rest).
+Proof. exact rounds_recover_valid. Qed.
+Print Assumptions c05_rounds_recover_valid.
+
+(* acknowledgements are never withdrawn by a round, so `acks fin` above holds every append acknowledged in any round *)
+Theorem c05_rounds_keep_acks : forall (v : ver) (rs : list (list op * nat)) (s : st) (i : N),
+  incl (acks s) (acks (fst (run_rounds v s i rs))).
+Proof. exact acks_rounds. Qed.
+Print Assumptions c05_rounds_keep_acks.
+
+Theorem c05_rounds_index_never_loses : forall (v : ver) (rs rs' : list (list op * nat)) (more : list op),
+  let s1 := run_rounds v init 0 rs in
+  let s2 := run_rounds v (fst s1) (snd s1) rs' in
+  idx_ext (idx (fst s1)) (idx (run_ops v (fst s2) (snd s2) more)).
+Proof. exact rounds_index_never_loses. Qed.
+Print Assumptions c05_rounds_index_never_loses.
+
+Theorem c05_rounds_artifact_before_frame : forall (v : ver) (rs : list (list op * nat)) (more : list op) (f : frame) (a : N),
+  let s1 := run_rounds v init 0 rs in
+  In f (frames_of (truth (run_ops v (fst s1) (snd s1) more))) -> f_art f = Some a ->
+  In a (arts (run_ops v (fst s1) (snd s1) more)).
+Proof. exact rounds_artifact_before_frame. Qed.
+Print Assumptions c05_rounds_artifact_before_frame.
+
+(* three rounds — a crash inside a message append (log line flushed, sidecar stale), a crash inside the sidecar REBUILD the
+   next append starts with, a crash inside a branch right after its index save — then three more operations *)
+Example c05_rounds_nonvacuous :
+  env_rounds fixed init 0 rd_rounds = true
+  /\ env_runb fixed (fst (run_rounds fixed init 0 rd_rounds)) (snd (run_rounds fixed init 0 rd_rounds)) rd_more = true
+  /\ snd (run_rounds fixed init 0 rd_rounds) = 4
+  /\ option_map (map (fun f => (f_sid f, f_seq f)))
+       (replay_validated (run_ops fixed (fst (run_rounds fixed init 0 rd_rounds)) 4 rd_more))
+     = Some [(0, 0); (0, 1); (2, 0); (0, 2); (2, 1)].
+Proof. exact rd_example. Qed.
+Print Assumptions c05_rounds_nonvacuous.
 
 (* T1 (Gen/CrashEffects.v is regenerated from /repo on every run): the order of file-system effects, crash points and
    counter updates read from EventLog::append, append_best_effort, rebuild_best_effort, the 11 locked appends,
